@@ -150,8 +150,9 @@ META = {
             'behaviours are replayed on the real writer/reader with crash images taken by hooks inside the commit.',
     'design_ref': '5.3',
     'note': 'Trusted: TLC, the driver (visibleOf / compareObs), the crash model (prefix persistence of appended data, atomic '
-            'rename). Hooks: 6 verifPoint calls in tombstone.go (build tag verif). Two minor findings on the unchanged tree '
-            '(Seek past the last key, TimeRange max for all-negative files) are known findings with input predicates.',
+            'rename). Hooks: 6 verifPoint calls in tombstone.go (build tag verif). One minor finding on the unchanged tree '
+            '(F20, Seek past the last key) is a known finding with an input predicate; F21 (TimeRange max of all-negative '
+            'files) is repaired in reader.go and compared exactly.',
     'technique': 'TLA+ spec (TSMFile.tla) + TLC exhaustive/simulation + replay on the real TSMWriter/TSMReader/Tombstoner',
     'quick_s': 150, 'thorough_s': 1500,
 }
